@@ -380,6 +380,8 @@ class Package:
         if tag == "import":
             mod, orig = sym[1], sym[2]
             if mod == PKG or mod.startswith(PKG + "."):
+                if f"{mod}.{orig}" in self.modules:
+                    return Resolved("libmod", f"{mod}.{orig}")  # ``from . import _core``
                 target = self.modules.get(mod)
                 if target is None:
                     # `from . import x` style
